@@ -163,3 +163,21 @@ proof('C18', 'Machine-checked by the Lean kernel alone (no native evaluation), f
       'correspondence and the oracle (all 2^32 arguments in the thorough tier). With fastmath off the helpers are the libm parameter of the model.',
       'Lean 4: kernel-checked polynomial sign certificates + Taylor/series remainders from Mathlib + rounding-error analysis over the reals (powf, expf, exp2, log2, cbrtf), totality by case analysis; correspondence ties the model to the code')
 
+partial('C03', 'Machine-checked by the Lean kernel alone, fastmath build, both FMA modes, for EVERY binary32 value of [0,1] (zero of either sign, subnormals, normals): the power-law family - BT.1886 and its aliases ST 170M, ST 240M, BT.2020-10/12, BT.470M (2.2), BT.470BG (2.8) - and xvYCC return, in both directions, a finite value within 2.5e-4 of the defining formula '
+        'x^gamma / x^(1/gamma) over the reals (C03.power_law_curves, C03.xvycc_curves; through the dispatch tables toLinearFn / toGammaFn). They rest on PowCurve.pow_unit (powf on [0,1] within 1.832e-4 + 7.914e-6 gamma + 4e-6, including the near-black cases where both values are below 2^-39), i.e. on the exp2 / log2 accuracy theorems of C18 with their '
+        'kernel-evaluated polynomial certificates; the exponent constants (2.4, 1.0/2.4, ...) are taken from the regenerated source constants and evaluated exactly (softfloat division in the kernel). Also proved: Linear is the bit-exact identity for every image, the four aliases are the same function as BT.1886 (bit-identical), '
+        'every non-log curve maps 0 to 0 within 1e-6 and 1 to 1 within its budget (evaluation, native_decide). NOT proved: the 2.5e-4 clause for sRGB, Log100, Log316, HLG and the 2.5e-4/5.7e-4 clause for PQ over all floats; those rest on the bit-exact correspondence of the model with the code plus the f64 oracle (every float of [0,1] in the thorough tier) - hence category other.',
+        'Lean 4: kernel-checked accuracy theorems for 8 of 14 characteristics (both directions) on top of the powf analysis; identity/alias theorems; correspondence + exhaustive f64 oracle for the remaining curves')
+
+partial('C10', 'Machine-checked by the Lean kernel alone, fastmath build, both FMA modes: for the power-law family (BT.1886 and its four aliases, BT.470M, BT.470BG) gamma -> linear -> gamma returns EVERY binary32 value x of [0,1] within 2.5e-4 (C10.power_law_roundtrip, through the dispatch tables). The proof follows the value through both powf calls: the '
+        'relative error of the first stage is damped by 1/gamma (Bernoulli inequality for real exponents), the second stage contributes its full powf error scaled by x when x <= 0.89, and only the small error of the well-approximated zone of exp2 (exp2_mid: 1.82e-5 on [-0.24, 0.01], its own polynomial certificate) when x > 0.89; '
+        'near-black inputs are handled by the "both below 2^-39" alternative of PowRel.pow_rel; the product of the two exponent constants is within 2e-7 of 1 (evaluated on the regenerated constants). Also proved: Linear and alias clauses (exact). NOT proved: the bound for sRGB, xvYCC, Log100/316, HLG and PQ; '
+        'correspondence + oracle over every float of [0,1] in the thorough tier - hence category other.',
+        'Lean 4: kernel-checked round-trip theorem for 7 of 14 characteristics (real analysis + powf/exp2/log2 accuracy theorems); correspondence + exhaustive oracle for the rest')
+
+LEVELS['C20'] = {'category': 'other', 'text': 'Feature wiring is proved: on the manifests regenerated from both Cargo.toml files, default features enable yuvxyb-math/fastmath and --no-default-features does not (C20.no_default_disables_fastmath, '
+      '`decide`), and with fastmath off the helpers are the libm parameter (nofast_is_libm). Accuracy without fastmath, power-law family: under the stated hypothesis that the libm powf parameter is within relative 1e-6 of the real power (glibc documents < 1 ulp = 6e-8), every power-law curve is within 5e-5 (in fact 5e-6) of its '
+      'defining formula on every binary32 of [0,1], both directions (C20.power_law_nofast, kernel-only). Every accuracy theorem of C01-C06, C08, C10, C17-C19 is stated for both values of the FMA flag. "Every property holds under each build" is otherwise established by running the correspondence (model with matching fastmath/fma flags) and the '
+      'property oracles against four real builds of the harness (default, +fma, --no-default-features, overflow/debug-checked); the 5e-5 clause for the non-power curves without fastmath is checked by the oracle, not proved (libm is a model parameter).',
+      'note': NOTE, 'technique': 'Lean 4 `decide` on translated Cargo manifests + accuracy theorem under a libm hypothesis + correspondence/oracles under four builds'}
+
